@@ -174,8 +174,73 @@ func wrap(t *rapid.T, g orb.Geometry, world string) orb.Geometry {
 	return g
 }
 
+// ---------------------------------------------------------------- long members
+
+// longCounts are the vertex counts around the powers of two (and 100) at which an implementation
+// may switch to a bulk / buffered path.
+var longCounts = []int{31, 32, 33, 63, 64, 65, 100, 127, 128, 129, 255, 256, 257}
+
+// longLine is an open zigzag of n distinct vertices inside lon/lat range.
+func longLine(n int, ox, oy float64) orb.LineString {
+	l := make(orb.LineString, n)
+	for i := range l {
+		l[i] = orb.Point{ox + float64(i)/64, oy + float64(i%3)/4 + float64(i)/1024}
+	}
+	return l
+}
+
+// longRing is a closed simple ring of exactly n vertices (n-1 distinct ones on a circle).
+func longRing(n int, cx, cy, rad float64, cw bool) orb.Ring { return ngon(cx, cy, rad, n-1, cw) }
+
+var longKinds = []string{"LineString", "Ring", "Polygon", "PolygonHole", "MultiPoint", "MultiLineFirst", "MultiLineLast"}
+
+// longValue builds the value of the named kind whose vertex list has n vertices.
+func longValue(kind string, n int) orb.Geometry {
+	short := orb.LineString{{-3, -3}, {-2, -2.5}, {-1, -3}}
+	switch kind {
+	case "LineString":
+		return longLine(n, -2, 0)
+	case "Ring":
+		return longRing(n, 1, 1, 2.5, false)
+	case "Polygon":
+		return orb.Polygon{longRing(n, 1, 1, 2.5, false)}
+	case "PolygonHole":
+		return orb.Polygon{squareRing(-4, -4, 6, 6, false), longRing(n, 1, 1, 2.5, true)}
+	case "MultiPoint":
+		return orb.MultiPoint(longLine(n, -2, 0))
+	case "MultiLineFirst":
+		return orb.MultiLineString{longLine(n, -2, 0), short}
+	}
+	return orb.MultiLineString{short, longLine(n, -2, 0)}
+}
+
+// longForms places a long value alone, first, last and nested-first among short members of the
+// kinds whose encoding / measure follows it.
+func longForms(g orb.Geometry) []orb.Geometry {
+	pt := orb.Point{1.5, 2.5}
+	mp := orb.MultiPoint{{0.5, 0.5}, {2, 1}}
+	poly := orb.Polygon{squareRing(0, 0, 2, 2, false)}
+	bd := orb.Bound{Min: orb.Point{-1, -1}, Max: orb.Point{2, 3}}
+	ring := squareRing(1, 1, 3, 3, true)
+	return []orb.Geometry{
+		g,
+		orb.Collection{g, pt, mp, poly, bd, ring},
+		orb.Collection{pt, mp, poly, bd, ring, g},
+		orb.Collection{orb.Collection{orb.Collection{deepCopy(g)}, pt}, mp, poly, bd},
+	}
+}
+
 // genGeometry draws the geometry of a case and names the generator class.
 func genGeometry(t *rapid.T, world string) (orb.Geometry, string) {
+	if rapid.IntRange(0, 39).Draw(t, "long") == 7 {
+		n := longCounts[rapid.IntRange(0, len(longCounts)-1).Draw(t, "ln")]
+		if rapid.IntRange(0, 3).Draw(t, "lany") == 0 {
+			n = rapid.IntRange(30, 260).Draw(t, "lnn")
+		}
+		g := longValue(longKinds[rapid.IntRange(0, len(longKinds)-1).Draw(t, "lk")], n)
+		forms := longForms(g)
+		return forms[rapid.IntRange(0, len(forms)-1).Draw(t, "lf")], "long-member"
+	}
 	switch k := rapid.IntRange(0, 10).Draw(t, "source"); {
 	case k == 10:
 		// bounds of every shape: regular, degenerate, inverted on x, on y, on both
